@@ -56,7 +56,7 @@ LEVEL = {
             'design_ref': '5 C19',
             'note': _TB + 'time.Parse/Format are modelled for the one fixed layout, including the liberal forms time.Parse accepts (one-digit hour, fractional seconds).'},
     'C08': {'text': 'Theorems on the command model: a copy that does not report success leaves an existing destination exactly as it was; a missing destination is created '
-                    'with its header synced; nothing differs => nothing written, no report. END TO END (C08_successful_copy_equalizes, proved through the refinement of the physical rings to '
+                    'with its header synced; nothing differs => nothing written, no report; with an existing destination the outcome does not depend on the creation options (C08_existing_destination_ignores_creation_options). END TO END (C08_successful_copy_equalizes, proved through the refinement of the physical rings to '
                     'write logs): for every destination content a history of updates can produce, every valid layout, clock of the domain, window, archive selection and NaN mode and every '
                     'well-formed source list (the one read from any such source file is), a copy that reports success leaves a destination which, opened afresh, answers the same fetch with '
                     'series of the same ranges whose difference from the source is empty - slot by slot the source value wherever it is to be copied (C08_empty_difference_slotwise); a second '
